@@ -154,7 +154,25 @@ fn rr_bytes(owner: &[u8], typ: u16, class: u16, ttl: u32, rdata: &[u8]) -> Vec<u
 /// Records offered for insertion.
 fn insert_menu() -> Vec<(&'static str, Vec<u8>)> {
     let tsig_rd = reftsig::tsig_rdata(&reftsig::Alg::Sha256.wire_name(), TSIG_TIME, 300, &[0x5a; 32], 0x1234, 0, &[]);
+    // Owners whose first octet is a reserved label type (0b01 / 0b10 prefix),
+    // followed by exactly as many octets as the low bits (or the whole octet)
+    // would announce if it were taken for a length, then the root: a scanner
+    // that skips such an octet as a long label finds a well-formed record.
+    let reserved = |v: u8, skip: usize| {
+        let mut o = vec![v];
+        o.extend(std::iter::repeat(b'a').take(skip));
+        o.push(0);
+        rr_bytes(&o, t::A, 1, 1, &[192, 0, 2, 9])
+    };
     vec![
+        ("reserved-label-0x40", reserved(0x40, 0x40)),
+        ("reserved-label-0x41-low", reserved(0x41, 1)),
+        ("reserved-label-0x7f", reserved(0x7f, 0x7f)),
+        ("reserved-label-0x80", reserved(0x80, 0x80)),
+        ("reserved-label-0x81-low", reserved(0x81, 1)),
+        ("reserved-label-0xa5", reserved(0xa5, 0xa5)),
+        ("reserved-label-0xbf", reserved(0xbf, 0xbf)),
+        ("reserved-label-0xbf-low", reserved(0xbf, 0x3f)),
         ("opt", rr_bytes(&[0], t::OPT, 1232, 0, &[])),
         ("opt-v1", rr_bytes(&[0], t::OPT, 1232, 0x0001_0000, &[])),
         ("tsig-unknown-key", rr_bytes(&wire::wname("nokey."), t::TSIG, 255, 0, &tsig_rd)),
